@@ -65,6 +65,16 @@ class EnumMember(Stub):
     def lower(self):
         return self.value.lower() if isinstance(self.value, str) else self
 
+    def __getitem__(self, k):
+        if self._str and isinstance(self.value, str):   # a str-mixin member *is* its value for slicing / indexing
+            return self.value[k]
+        raise Unsupported(f"subscript of enum member {self!r}")
+
+    def startswith(self, *a):
+        if self._str and isinstance(self.value, str):
+            return self.value.startswith(*a)
+        raise Unsupported(f"startswith on enum member {self!r}")
+
     def __str__(self):
         return f"{self.cls}.{self.name}"
 
@@ -193,14 +203,33 @@ class ModuleEnv(Env):
                 v = other.lookup(leaf)
                 if v is not _MISSING:
                     return v
-            if dotted in self.repo.modules:  # a module object: attribute access is not modelled
-                raise Unsupported(f"module object {dotted} used as a value")
+            if dotted in self.repo.modules:  # `import pkg.mod as m`: attribute access resolves in that module's scope
+                return ModuleObj(self._env_of(dotted), dotted)
             if leaf and (leaf.endswith(("Error", "Exception", "Warning")) or leaf[:1].isupper()):
                 return ClassRef(leaf, dotted)
             raise Unsupported(f"import `{k}` ({dotted}) has no stand-in")
         if k in ("ValueError", "TypeError", "RuntimeError", "KeyError", "IndexError", "Exception", "AttributeError", "NotImplementedError"):
             return ClassRef(k)
         return _MISSING
+
+
+class ModuleObj(Stub):
+    """A module of the analysed package bound to a name (`import a.b.c as m`): `m.x` is x in that module's (uninterpreted-import) scope."""
+
+    def __init__(self, env: "ModuleEnv", dotted: str):
+        object.__setattr__(self, "_env", env)
+        object.__setattr__(self, "_dotted", dotted)
+
+    def __getattr__(self, name):
+        if name.startswith("__"):
+            raise AttributeError(name)
+        v = self._env.lookup(name)
+        if v is _MISSING:
+            raise Unsupported(f"module {self._dotted} has no modelled name `{name}`")
+        return v
+
+    def __repr__(self):
+        return f"<module {self._dotted}>"
 
 
 # ------------------------------------------------------------------------------------------------ term algebra
